@@ -137,13 +137,9 @@ class Check:
         return verdicts
 
     def report(self, record, why, keyf=None):
-        key = None
         if keyf is not None:
-            try:
-                key = keyf(record, why)
-            except Exception:
-                key = None
-        if key is None:
+            key = keyf(record, why)
+        else:
             key = record.get("kf")
         for k in self.known:
             if k.get("status") == "open" and key is not None and k["key"] == key:
